@@ -97,6 +97,20 @@ def run(chk):
     pair = Pair(chk.log)
     z = filelevel.load_zoos(pair, ["flat"])["flat"]
     cases = [filelevel.Case(z, mx, codec, ops, tag) for mx, codec, ops, tag in workloads(chk, z, thorough)]
+    # nested structs: optional leaves under optional/repeated groups (definition levels between 0 and the
+    # maximum are nulls too), lists in lists, same-named groups; records with the group present and the leaf nil
+    import workloads as wl
+    zs = filelevel.load_zoos(pair, [n for n in wl.WRITER_ZOOS if n != "flat"])
+    for name, zz in zs.items():
+        if zz is None:
+            continue
+        for mode, kw in (("mixed", dict(p_nil=0.35)), ("pool", dict(p_nil=0.5, lens=(0, 1, 2, 3)))):
+            g = zoolib.Gen(chk.rng, mode=mode, **kw)
+            for i in range(24 if thorough else 6):
+                ops = []
+                for b in range(chk.rng.choice([1, 2])):
+                    ops += [("a", g.record(zz.nodes)) for _ in range(chk.rng.choice([2, 3, 5, 9]))] + [("w",)]
+                cases.append(filelevel.Case(zz, chk.rng.choice([1, 2, 3, 1000]), i % 3, ops + [("c",)], "nested-" + name))
     filelevel.run_cases(pair, cases, want_read=False)
     tabtxt = lambda d: ",".join("%s=%s" % kv for kv in d.items()) or "-"
     st = common.chunked_parallel(pair.model, ["pagestats %s %d %s %s" % (c.zoo.cols_text, c.max, c.impl_file, tabtxt(c.dtab)) for c in cases], workers=8, chunk=100)
@@ -119,7 +133,7 @@ def run(chk):
         "obligations": pr["obligations"], "discharged": pr["discharged"], "axioms": pr["axioms"],
         "checker_cmd": "cd lean && lake build %s" % MODULE, "trusted_base": TRUSTED_BASE, "forbidden_constructs": pr["forbidden_constructs"],
         "evaluations": len(cases), "distinct_nontrivial": len(nontrivial), "pages_checked": pages,
-        "rule": "struct flat (8 types x required/optional/repeated): every ordered pair of boundary-pool values per column on one page (page sizes 1,2[,3]), seeded random pages of 1-7 records, special pages (all negative, all NaN, sentinel strings, maxima, all nil); non-trivial = distinct history whose file parses and whose every page passes the statistics oracle",
+        "rule": "nested structs (optional leaves under optional and repeated groups, lists in lists; seeded random records with the group present and the leaf nil); struct flat (8 types x required/optional/repeated): every ordered pair of boundary-pool values per column on one page (page sizes 1,2[,3]), seeded random pages of 1-7 records, special pages (all negative, all NaN, sentinel strings, maxima, all nil); non-trivial = distinct history whose file parses and whose every page passes the statistics oracle",
         "samples": [cases[i].key()[:300] for i in (0, len(cases) // 2, len(cases) - 1)],
         "input_distribution": tags,
         "tie": "exact: model file bytes (incl. Statistics of every DataPageHeader) = generated writer's; oracle: statsUnsound on values independently decoded from each page",
